@@ -45,9 +45,15 @@ type reader struct {
 	s *bufio.Scanner
 }
 
+// Maximal supported length of a single line (the scanner's default is 64KiB,
+// which long reads exceed).
+const maxLineLen = 1 << 30
+
 // Returns a new fastq reader that reads from r.
 func newReader(r io.Reader) *reader {
-	return &reader{s: bufio.NewScanner(r)}
+	s := bufio.NewScanner(r)
+	s.Buffer(nil, maxLineLen)
+	return &reader{s: s}
 }
 
 // Reads the next fastq entry from the reader.
